@@ -58,6 +58,20 @@ ELEMENTS = {
         "  Note: 'gn'\n"
         "}\n"
     ),
+    'commented': (
+        "/* first block */\n"
+        "Table a {\n"
+        "  x int // trailing\n"
+        "  /* inner */\n"
+        "  y int\n"
+        "}\n"
+        "/* second\n"
+        "   block */\n"
+        "Enum e {\n"
+        "  v\n"
+        "}\n"
+        "// last line\n"
+    ),
     'project': (
         "Project p {\n"
         "  db: 'pg'\n"
